@@ -868,6 +868,11 @@ class Client(BaseClient):
             if not e.received_codes[-1].matches("50x"):
                 raise
 
+        if path.name in ("", ".", ".."):
+            # (the root, the working directory, a parent: no listing has an
+            # entry of that name - it is a directory if it can be listed)
+            await self.list(path)
+            return {"type": "dir"}
         for p, info in await self.list(path.parent):
             if p.name == path.name:
                 return info
